@@ -7,7 +7,7 @@
    (any set of modified / appended / freed pages, any write order, rollback before or
    after spill, which re-writes the pre-images through the same call). *)
 From Coq Require Import NArith List Bool Sorted.
-Require Import LF.Gen.ConstsGen LF.Model.PageDB LF.Proofs.XorLib LF.Proofs.ChecksumProofs LF.Proofs.CaptureProofs.
+Require Import LF.Gen.ConstsGen LF.Model.PageDB LF.Proofs.XorLib LF.Proofs.ChecksumProofs LF.Proofs.CaptureProofs LF.Proofs.HistoryProofs LF.Proofs.LogHistoryProofs.
 Import ListNotations.
 Local Open Scope N_scope.
 
@@ -86,3 +86,32 @@ Example C02_leaving_wal_mode :
   let s2 := snd (run_group s1 [OWalTruncate; OWriteJ 1 (mkPg (fl 21) 2 false); OCommitJournal 2]) in
   (wal_mode s1, wal_mode s2, txid s2, map (fun f => map fst (l_pages f)) (ltxdir s2)) = (true, false, 2, [[1;2];[1]]).
 Proof. vm_compute. reflexivity. Qed.
+
+(* "Exactly once, in order", along histories.  [hs]: any rollback-journal history from an empty node ([hstep], [wf_hist] as
+   in C04_journal_history: committed transactions with page writes in any order, gaps, spills and rollbacks, failed
+   finalisations that are repeated; truncates).  For EVERY such history the log holds exactly one file per committed
+   transaction, the k-th numbered k - nothing captured twice, nothing skipped, nothing out of order.  (That each file's
+   pre-checksum is the post-checksum of the one before is C09's chain invariant; that each file holds exactly the pages the
+   transaction changed is C02_journal_commit_exact; that replaying them reproduces the database is C01_follower_identical.) *)
+Theorem C02_history_once_in_order : forall lock hs s',
+  1 <= lock -> wf_hist (init lock) hs -> run_hsteps (init lock) hs = Some s' ->
+  map (fun f => (l_min f, l_max f)) (ltxdir s') = map (fun t => (t, t)) (seqN 1 (N.to_nat (txid s'))) /\
+  length (ltxdir s') = N.to_nat (txid s').
+Proof. exact log_history_once_in_order. Qed.
+Print Assumptions C02_history_once_in_order.
+
+(* Non-vacuity: the history of C04_journal_history_nonvacuous - four committed transactions (one of them a rollback after a
+   spill, which publishes a file of unchanged pages) and a truncate: four files, numbered 1..4 *)
+Example C02_history_nonvacuous :
+  let pg h := mkPg (fl h) 0 false in
+  let hs := [HTx [] [AWrite 1 (pg 11); AWrite 2 (pg 12)] 2;
+             HTx [(3, pg 33); (4, pg 44)] [AWrite 1 (pg 21); AWrite 5 (pg 55)] 5;
+             HTx [] [AWrite 2 (pg 77); AWrite 7 (pg 70); AWrite 2 (pg 12); ACut] 5;
+             HTx [] [AWrite 2 (pg 92)] 3; HTrunc 3] in
+  wf_hist (init 2097153) hs /\
+  match run_hsteps (init 2097153) hs with
+  | Some s => (txid s, map (fun f => (l_min f, l_max f)) (ltxdir s), map (fun f => map fst (l_pages f)) (ltxdir s))
+              = (4, [(1, 1); (2, 2); (3, 3); (4, 4)], [[1; 2]; [1; 3; 4; 5]; [2]; [2]])
+  | None => False
+  end.
+Proof. exact log_history_example. Qed.
